@@ -3,6 +3,7 @@ import PMV.Model.Pipeline
 import PMV.Model.Minify
 import PMV.Proofs.Transforms
 import PMV.Proofs.TransformsImports
+import PMV.Proofs.RemovePass
 /-
   C05 — Each option performs only its documented rewrite, only where it is valid.
   `Spec.Rewrites.canonModule c` erases exactly what the documentation lets the options in `c` do.
@@ -35,15 +36,13 @@ theorem other_statements_kept (q : Stmt → Bool) (m : Bool) (b : List Stmt) (s 
     s ∈ filterSuite q m b :=
   filterSuite_keeps q m b s hs hq
 
-/-- T05.1 (remove_pass): output = input modulo dropping `pass` statements and `0` placeholders. -/
+/-- T05.1 (remove_pass): output = input modulo dropping `pass` statements and `0` placeholders (a placeholder is left in a
+    block that would become empty and, since fix F39, in front of a string statement that would become a docstring). -/
 theorem remove_pass_only_documented (m : Module) :
     canonModule { pass := true } (travModule removePass m) = canonModule { pass := true } m := by
-  apply canon_dropT (c := { pass := true }) (q := isPass) ⟨rfl, rfl, rfl⟩
-  · intro s hs; simp [dropStmt, hs]
-  · simp [dropStmt, COpts.placeholders, isZero, zeroStmt]
-  · intro cls s; exact (kind_cStmt _ cls s).1
-  · rfl
-  · rfl
+  have : removePass = suiteT (fun m b => filterSuite isPass m (passGuard b)) := rfl
+  rw [this]
+  exact canon_suiteT _ _ (fun cls fb m ys => removePass_suite cls fb m ys) rfl rfl m
 
 /-- T05.1 (remove_asserts) -/
 theorem remove_asserts_only_documented (m : Module) :
@@ -97,6 +96,9 @@ theorem combine_imports_keeps_order (b : List Stmt) :
     flattenImports (combineImport b) = flattenImports b ∧ flatFrom (combineFrom b) = flatFrom b :=
   ⟨flatten_combineImport b, flatFrom_combineFrom b⟩
 
+-- the fix F39: a string statement behind leading `pass` statements does not become the docstring
+example : (removePass.suiteF false [.pass, .pass, .expr (.constant (.str "'t'" [116])), .return_ none]).map isZero = [true, false, false] := by decide
+example : (removePass.suiteF false [.expr (.constant (.str "'t'" [116])), .pass]).map isZero = [false] := by decide
 -- Non-vacuity
 example : (canonModule { debug := true } ⟨[.if_ (.name "__debug__" .load) [.pass] [.expr (.name "x" .load)], .expr (.name "y" .load)]⟩).body.length = 2 := by decide
 example : (filterSuite isPass false [.pass, .pass]).length = 1 ∧ (filterSuite isPass false [.pass, .pass]).all Spec.Rewrites.isZero = true := by decide
